@@ -65,6 +65,7 @@ type Frame struct {
 	debugRefs []*ssa.DebugRef
 	oblPrefix string
 	variant0  string
+	invokeMethod *types.Func
 	ghosts    []*Val
 	namedVars map[ssa.Value]bool
 	topNames  map[string]*Val
@@ -569,6 +570,14 @@ func (fr *Frame) loopLatch(li *loopInfo, from *ssa.BasicBlock) {
 		if err == nil {
 			fr.oblige("decreases", name+"/decreases", and(app("<=", "0", li.variant), app("<", t, li.variant)))
 		}
+	}
+	for i, la := range li.lc.Latch {
+		t, err := fr.evalClause(la, &evalCtx{fr: fr, st: fr.st, old: fr.entry, loop: li, head: li.headSt})
+		if err != nil {
+			fr.stale(name+"/"+clauseName("latch", i, la), err)
+			continue
+		}
+		fr.oblige("inv-preserve", name+"/"+clauseName("latch", i, la), t)
 	}
 	if li.declared != nil {
 		all := map[string]bool{}
